@@ -7,23 +7,30 @@ CFG = {
                           "RpmVerif.C18.i32_out_of_range", "RpmVerif.C18.i32_in_range", "RpmVerif.C18.i32_roundtrip",
                           "RpmVerif.C18.i32_invalid_iff", "RpmVerif.C18.ctor_masks", "RpmVerif.C18.ctor_raw",
                           "RpmVerif.C18.ctor_roundtrip", "RpmVerif.C18.spec_word", "RpmVerif.C18.spec_int",
-                          "RpmVerif.C18.spec_ctor"],
+                          "RpmVerif.C18.spec_ctor", "RpmVerif.C18.ctor_field", "RpmVerif.C18.u16_field", "RpmVerif.C18.u16_reconverted",
+                          "RpmVerif.C18.i32_reconverted_iff", "RpmVerif.C18.reconverted_eq_iff", "RpmVerif.C18.built_canonical",
+                          "RpmVerif.C18.derivedEq_iff", "RpmVerif.C18.hashFeed_inj", "RpmVerif.C18.observe_eqHashOk"],
     "trivial_branches": [],
     "rule": "complete enumeration: every 16-bit word through From<u16> and through each of the three named constructors "
             "(4 x 65 536 cases); for i32 every integer of [-70 000, 70 000], every +-2^k and +-2^k+-1, the ends of i32 and 10^5 seeded "
             "random values (half uniform over i32, half near the 16-bit range) (quick); thorough adds 10^6 random values, a stride-2^11 "
             "sweep of i32 (2^21 values) and ALL 2^32 integers in 65 536 blocks of 65 536 whose per-value observations are compared "
             "through a 64-bit digest computed on both sides (plus the count of values reported invalid and the first one that was not); "
-            "every case is non-trivial; distinct = distinct request lines",
+            "every observation includes the variant's public `permissions` field (read by pattern matching), FileMode::from(m.raw_mode()) == m and "
+            "the equality of the two hashes; every case is non-trivial; distinct = distinct request lines",
     "exhaustive": True,
     "shards": {"quick": 4, "thorough": 16},
     "shrink": False,   # arguments are decimal numbers, each failing case already is a minimal concrete input
     "trusted_base": ["64-bit digest (xor-multiply-shift over the packed observations) standing in for 65 536 observations per block in the thorough sweep"],
-    "assumptions": COMMON_ASSUME + ["the `reason` text of FileMode::Invalid / Error::InvalidFileMode is not part of the property and is not observed"],
+    "assumptions": COMMON_ASSUME + ["the `reason` TEXT of FileMode::Invalid / Error::InvalidFileMode is not part of the property; only which of the two reasons a value "
+                                    "carries is observed (by comparison with reference values), because it enters the derived == and Hash",
+                                    "hash equality is observed with std's DefaultHasher (fixed keys); the model predicts 'different' for different values, i.e. assumes no collision"],
     "level_text": "Theorems for all 16-bit words (bit-level, no enumeration) and all integers: raw_mode/u16::from/u32::from give the word back, "
                   "file_type | permissions = word (and they are exactly the masked parts), Dir/Regular/SymbolicLink iff the type bits are "
                   "0o040000/0o100000/0o120000, integers above 65535 or below -32768 become Invalid (an error from try_from_raw), integers in "
-                  "between behave as the u16 conversion of n mod 2^16, the constructors mask to 0o7777 and agree with the conversion. "
+                  "between behave as the u16 conversion of n mod 2^16, the constructors mask to 0o7777 — in the public variant field too, not only behind the getters — and agree with the conversion; "
+                  "FileMode::from(m.raw_mode()) == m exactly for the canonical values (everything the conversions and constructors build except an out-of-range integer), "
+                  "the derived == is equality of values and Hash agrees with it. "
                   "The model is tied to the code by complete enumeration of the u16 domain and (thorough) of the i32 domain.",
     "level_note": "Trusted: Lean kernel; fidelity of the hand model as exercised by the (complete) correspondence; mask constants are regenerated "
                   "from src/rpm/headers/types.rs on every run and pinned to the property's numbers by consts_ok.",
